@@ -57,6 +57,7 @@ inductive Instr
   | stWc (b : Bool)                      -- `_wait_cond` := cond / None
   | condWait (r : Ref) (t : TOut)        -- one `cond.wait(t)`; acc := not timed out
   | notifyAll (r : Ref)
+  | notify (r : Ref) (n : Nat)           -- `cond.notify(n)`: wakes the `n` **oldest** waiters (CPython: FIFO deque)
   | evWait (t : TOut)                    -- `_stop_requested.wait(t)`; acc := result
   | tsleep                               -- `time.sleep(t)`
   | mark (m : Mark)                      -- user hook of the loop task (observable)
@@ -126,6 +127,7 @@ structure St where
   lqc : Option Nat
   fin : Nat                    -- how often `loop_finalize` ran
   tstate : Nat                 -- `_TaskThread._state` (index of the member of `_TaskThread.State`)
+  wq : List Nat                -- not yet notified waiters of the conditions, oldest first; entry = lock id * 16 + thread
   ths : List Th
   deriving DecidableEq, Repr
 
@@ -164,7 +166,7 @@ def setLoc (locs i : Nat) (b : Bool) : Nat :=
   if b then cleared + (1 <<< i) else cleared
 
 def Instr.isVisible : Instr → Bool
-  | .lock _ | .unlock _ | .setFlag | .ldFlag | .ldWc | .stWc _ | .condWait _ _ | .notifyAll _
+  | .lock _ | .unlock _ | .setFlag | .ldFlag | .ldWc | .stWc _ | .condWait _ _ | .notifyAll _ | .notify _ _
   | .evWait _ | .tsleep | .mark _ | .publish => true
   | _ => false
 
@@ -276,10 +278,35 @@ def isTimed (t : Th) : TOut → Bool
   | .always => true
   | .param => t.timed
 
-def notifyThreads (l : Nat) (ths : List Th) : List Th :=
-  ths.map fun t => match t.park with
-    | .cond l' false => if l' == l then { t with park := .cond l' true } else t
-    | _ => t
+/-- take the (at most) `n` oldest waiters of the condition with lock `l` out of the queue: (woken threads, rest) -/
+def takeWaiters (l : Nat) : List Nat → Nat → List Nat × List Nat
+  | [], _ => ([], [])
+  | w :: q, n =>
+    match n with
+    | 0 => ([], w :: q)
+    | m+1 =>
+      if w / 16 == l then
+        let r := takeWaiters l q m
+        (w % 16 :: r.1, r.2)
+      else
+        let r := takeWaiters l q (m+1)
+        (r.1, w :: r.2)
+
+def markNotified (woken : List Nat) : Nat → List Th → List Th
+  | _, [] => []
+  | i, t :: r =>
+    (if woken.contains i then (match t.park with | .cond l false => { t with park := .cond l true } | _ => t) else t)
+      :: markNotified woken (i+1) r
+
+/-- `notify(n)` on the condition with lock `l` -/
+def St.notifyN (s : St) (l n : Nat) : St :=
+  let r := takeWaiters l s.wq n
+  { s with wq := r.2, ths := markNotified r.1 0 s.ths }
+
+/-- `notify_all()` -/
+def St.notifyAll (s : St) (l : Nat) : St := s.notifyN l s.wq.length
+
+def removeWaiter (l tid : Nat) (q : List Nat) : List Nat := q.filter fun w => w != l * 16 + tid
 
 /-- the interleaving step of thread `tid` (before thread-local fusion) -/
 def visStep (sys : Sys) (s : St) (tid : Nat) (t : Th) : List (Lbl × St × Th) :=
@@ -309,21 +336,29 @@ def visStep (sys : Sys) (s : St) (tid : Nat) (t : Th) : List (Lbl × St × Th) :
         match lockId t r with
         | none => [(.crash, s, t.crash)]
         | some l =>
-          if s.owner l = some tid then [(.notify l, { s with ths := notifyThreads l s.ths }, nx)]
+          if s.owner l = some tid then [(.notify l, s.notifyAll l, nx)]
           else [(.crash, s, t.crash)]                                     -- RuntimeError: un-acquired lock
+      | .notify r n =>
+        match lockId t r with
+        | none => [(.crash, s, t.crash)]
+        | some l =>
+          if s.owner l = some tid then [(.notify l, s.notifyN l n, nx)]
+          else [(.crash, s, t.crash)]
       | .condWait r to =>
         match lockId t r with
         | none => [(.crash, s, t.crash)]
         | some l =>
           match t.park with
           | .no =>
-            if s.owner l = some tid then [(.park, s.setOwner l none, { t with park := .cond l false })]
+            if s.owner l = some tid then
+              [(.park, { s.setOwner l none with wq := s.wq ++ [l * 16 + tid] }, { t with park := .cond l false })]
             else [(.crash, s, t.crash)]
           | .cond _ n =>
             if s.owner l = none then
               (if n then [(Lbl.reacq true, s.setOwner l (some tid), { nx with park := .no, acc := true })] else []) ++
               (if isTimed t to then
-                [(Lbl.reacq false, s.setOwner l (some tid), { nx with park := .no, acc := false, expired := true })] else [])
+                [(Lbl.reacq false, { s.setOwner l (some tid) with wq := removeWaiter l tid s.wq },
+                  { nx with park := .no, acc := false, expired := true })] else [])
             else []
           | _ => []
       | .evWait to =>
@@ -341,7 +376,7 @@ def visStep (sys : Sys) (s : St) (tid : Nat) (t : Th) : List (Lbl × St × Th) :
       | .publish =>
         -- one action (DESIGN §3): a critical section under one lock that touches only state protected by that lock
         if s.lqc = none then
-          [(.publish, { s with qlen := if s.qlen < sys.cap then s.qlen + 1 else s.qlen, ths := notifyThreads 2 s.ths }, nx)]
+          [(.publish, { s with qlen := if s.qlen < sys.cap then s.qlen + 1 else s.qlen }.notifyAll 2, nx)]
         else []
       | .mark m =>
         [(.mark m, (match m with | .finalize => { s with fin := if s.fin < 2 then s.fin + 1 else s.fin } | _ => s), nx)]
@@ -407,6 +442,11 @@ def stackBeq : List (Nat × Nat) → List (Nat × Nat) → Bool
   | (a, b) :: r, (c, d) :: r' => a == c && b == d && stackBeq r r'
   | _, _ => false
 
+def natListBeq : List Nat → List Nat → Bool
+  | [], [] => true
+  | a :: r, b :: r' => a == b && natListBeq r r'
+  | _, _ => false
+
 def boolBeq : Bool → Bool → Bool
   | true, true => true
   | false, false => true
@@ -424,13 +464,14 @@ def thsBeq : List Th → List Th → Bool
 
 def St.beq (a b : St) : Bool :=
   boolBeq a.flag b.flag && boolBeq a.wc b.wc && a.qlen == b.qlen && optNatBeq a.lwcl b.lwcl &&
-  optNatBeq a.lsc b.lsc && optNatBeq a.lqc b.lqc && a.fin == b.fin && a.tstate == b.tstate && thsBeq a.ths b.ths
+  optNatBeq a.lsc b.lsc && optNatBeq a.lqc b.lqc && a.fin == b.fin && a.tstate == b.tstate && natListBeq a.wq b.wq && thsBeq a.ths b.ths
 
 def Th.key (t : Th) : Nat :=
   ((((t.pc * 16 + t.fn) * 16 + t.park.code) * 8 + t.status.code) * 2 + t.acc.toNat) * 64 + t.locs % 64
 
 def St.key (s : St) : Nat :=
-  s.ths.foldl (fun k t => k * 1048576 + t.key) ((s.tstate * 4 + s.qlen) * 4 + s.flag.toNat * 2 + s.wc.toNat)
+  s.ths.foldl (fun k t => k * 1048576 + t.key)
+    (((s.wq.foldl (fun k w => k * 64 + w + 1) 0) * 8 + s.tstate) * 16 + s.qlen * 4 + s.flag.toNat * 2 + s.wc.toNat)
 
 abbrev Buckets := List (List (Nat × St))
 
